@@ -9,10 +9,11 @@ ASSUME = ["totality is decided for all token sequences up to the stated length o
 LONGCASE = "CASE " + " ".join("WHEN v = %d THEN 'x%d'" % (i, i) for i in range(24)) + " ELSE 'z' END"      # about 150 tokens in ONE select item
 SEL = {"cols": ("id, limit_x, order1", ["id", "limit_x", "order1"]), "aliases": ("id AS fromage, v AS selectee, 'a LIMIT 3' AS lit", ["fromage", "selectee", "lit"]),
        "index": ("id, m[1][0] AS mm, cfg['a']['b'] AS cb, rows[0].v AS rv, o.f AS of1", ["id", "mm", "cb", "rv", "of1"]),
+       "indexkw": ("id, rows[0].limit AS rl, m[1].order AS mo, o.group AS og", ["id", "rl", "mo", "og"]),
        "longitem": ("id, " + LONGCASE + " AS big, w", ["id", "big", "w"]),
        "aggs": ("g, count(*) AS c, sum(v) AS s", ["g", "c", "s"]), "aggs2": ("g, avg(v) AS a, max(v) AS mx", ["g", "a", "mx"])}
 LONGW = " AND ".join("v%d > %d" % (i, i) for i in range(45))          # 45 comparisons, about 180 tokens: a long clause is a clause
-WHERE = {"none": ("", ""), "long": (LONGW, LONGW.replace(" AND ", "&&").replace(" ", "")), "cmp": ("v > 1", "v>1"), "kwlit": ("v > 1 AND name != 'ORDER BY x'", "v>1&&name!='ORDERBYx'"), "andor": ("v >= 2 AND w < 5 OR g = 'WHERE'", "v>=2&&w<5||g=='WHERE'")}
+WHERE = {"none": ("", ""), "long": (LONGW, LONGW.replace(" AND ", "&&").replace(" ", "")), "cmp": ("v > 1", "v>1"), "pathkw": ("items[0].order > 1 AND v > 2 AND cfg['a'].limit < 9", "items[0].order>1&&v>2&&cfg['a'].limit<9"), "kwlit": ("v > 1 AND name != 'ORDER BY x'", "v>1&&name!='ORDERBYx'"), "andor": ("v >= 2 AND w < 5 OR g = 'WHERE'", "v>=2&&w<5||g=='WHERE'")}
 WIN = {"none": ("", "", []), "tumbling": ("TumblingWindow('10s')", "tumbling", ["10000ms"]), "sliding": ("SlidingWindow('30s', '10s')", "sliding", ["30000ms", "10000ms"]),
        "counting": ("CountingWindow(5)", "counting", ["5"]), "session": ("SessionWindow('5m')", "session", ["300000ms"]), "global": ("GLOBAL WINDOW TRIGGER WHEN COUNT(*) >= 10", "global", [])}
 HAVING = {"none": ("", ""), "alias": ("{a0} > 1", "{a0}>1"), "agg": ("max(w) >= 3", None)}    # an unselected aggregate is lowered to a hidden column: only "HAVING present" is compared
@@ -84,6 +85,8 @@ def build(o):
     if o["limit"]: txt += " LIMIT %d" % o["limit"]
     exp = {"fields": fields, "where": wexp, "limit": o["limit"], "distinct": 1 if o["distinct"] else 0, "order": [x.format(a0=a0, a1=a1) for x in oexp],
            "joins": jexp, "groups": groups, "nsel": len(fields)}
+    if o["sel"] == "indexkw":
+        exp["simple"] = ["id", "rows[0].limit:rl", "m[1].order:mo", "o.group:og"]
     if o["sel"] == "index":      # the item texts as the parser must keep them (a blank inside m[1][0] changes what is selected)
         exp["simple"] = ["id", "m[1][0]:mm", "cfg['a']['b']:cb", "rows[0].v:rv", "o.f:of1"]
     if hexp is not None:
